@@ -558,8 +558,28 @@ def run(repo, rep):
     if not st:
         probs.append('accepted contexts are never recorded')
     rsp = 'self.dul.receive(self.ae.timeout)'
+    class _Present(ast.NodeTransformer):
+        """``None if x.ts_sub_item is None else E``: an accepted context carries its transfer syntax sub-item (PS3.8 9.3.3.2), so for
+        the replies the property is about the expression is E"""
+        def visit_IfExp(self_, n):
+            self_.generic_visit(n)
+            t = n.test
+            if isinstance(t, ast.Compare) and len(t.ops) == 1 and isinstance(t.comparators[0], ast.Constant) and t.comparators[0].value is None \
+                    and norm(t.left).endswith('.ts_sub_item'):
+                if isinstance(t.ops[0], ast.Is) and isinstance(n.body, ast.Constant) and n.body.value is None:
+                    return n.orelse
+                if isinstance(t.ops[0], ast.IsNot) and isinstance(n.orelse, ast.Constant) and n.orelse.value is None:
+                    return n.body
+            return n
+
+    def present(t):
+        try:
+            e_ = ast.parse(t, mode='eval').body
+        except SyntaxError:
+            return t
+        return norm(_Present().visit(e_))
     for e, s in st:
-        key, val = expand_items(e.args[0]), expand_items(e.args[1])
+        key, val = present(expand_items(e.args[0])), present(expand_items(e.args[1]))
         conds = [expand_items(x) for x in e.conds]
         # the loop variable: an element of the reply's presentation-context items, either filtered by a
         # generator on result_reason == 0 or tested on the path
